@@ -58,6 +58,7 @@ def fmtVRes : VRes → String
 
 def step (_ : Unit) (op impl : String) : Unit × DrvOut :=
   match words op with
+  | ["reset"] => ((), { model := "ok" })
   | "find" :: req :: n :: rest =>
     match Hex.decode req, n.toNat? with
     | some req, some n =>
